@@ -137,6 +137,8 @@ pub fn exec(case: &Value) -> Value {
                 _ => UnitSphere.sample(g).len_sqr(),
             };
             o.insert("n2".into(), json!((n2 as f64 * 1048576.0).round().min(1e9) as i64));
+            // "inside" as the library itself measures it (len_sqr() <= 1 in f32): the scaled integer cannot show one ulp
+            o.insert("inside".into(), json!((n2 <= 1.0) as u8));
         }
         "seq" => {
             // composite distributions draw their components in order: compare with
@@ -170,6 +172,20 @@ pub fn exec(case: &Value) -> Value {
                     let y = Uniform(pt2::<f32, ()>(5.0, -1.0)..pt2(6.0, 1.0)).sample(&mut g1);
                     a.extend([y.x(), y.y()].iter().map(|c| key(*c)));
                     for (lo, hi) in [(-2.0f32, 3.0f32), (1.0, 2.0), (10.0, 20.0), (5.0, 6.0), (-1.0, 1.0)] {
+                        b.push(key(Uniform(lo..hi).sample(&mut g2)));
+                    }
+                }
+                "pointfar" | "vecfar" => {
+                    // narrow boxes far from zero: start + offset must not round up onto the end
+                    let rs = [(100.0f32, 101.0f32), (1000.0, 1001.0), (-1001.0, -1000.0)];
+                    if gs(case, "what") == "pointfar" {
+                        let x = Uniform(pt3::<f32, ()>(rs[0].0, rs[1].0, rs[2].0)..pt3(rs[0].1, rs[1].1, rs[2].1)).sample(&mut g1);
+                        a.extend([x.x(), x.y(), x.z()].iter().map(|c| key(*c)));
+                    } else {
+                        let x = Uniform(vec3::<f32, ()>(rs[0].0, rs[1].0, rs[2].0)..vec3(rs[0].1, rs[1].1, rs[2].1)).sample(&mut g1);
+                        a.extend([x.x(), x.y(), x.z()].iter().map(|c| key(*c)));
+                    }
+                    for (lo, hi) in rs {
                         b.push(key(Uniform(lo..hi).sample(&mut g2)));
                     }
                 }
@@ -342,6 +358,26 @@ pub fn gen(args: &Args, out: &mut dyn Write) {
     for i in 0..(if thorough { 120_000 } else { 12_000 }) {
         let (dist, kind) = [("disk", "in"), ("ball", "in"), ("pdisk", "in"), ("pball", "in"), ("circle", "on"), ("sphere", "on")][i % 6];
         emit(out, json!({"op": "norm", "s": limbs(rng.next() | 1), "dist": dist, "kind": kind}));
+    }
+    // the rejection samplers and the composite distributions on states whose next outputs have
+    // extreme mantissas (all zeros: the coordinate -1 exactly; all ones: the largest offset)
+    for i in 0..(if thorough { 40_000 } else { 4_000 }) {
+        let m: u64 = [0u64, 0x7F_FFFF, 0x7F_FFFE, 1, 0x7F_FF00, 0x40_0000][i % 6];
+        let st = inv_step((m << 41) | (rng.next() >> 23));
+        if st == 0 {
+            continue;
+        }
+        match i % 4 {
+            0 => emit(out, json!({"op": "norm", "s": limbs(st), "dist": "disk", "kind": "in"})),
+            1 => emit(out, json!({"op": "norm", "s": limbs(st), "dist": "pdisk", "kind": "in"})),
+            2 => emit(out, json!({"op": "seq", "s": limbs(st), "what": "pointfar"})),
+            _ => emit(out, json!({"op": "seq", "s": limbs(st), "what": "vecfar"})),
+        }
+        // ... and with the extreme output second in line (the y coordinate)
+        let prev = inv_step(st);
+        if prev != 0 && i % 4 < 2 {
+            emit(out, json!({"op": "norm", "s": limbs(prev), "dist": if i % 4 == 0 { "disk" } else { "ball" }, "kind": "in"}));
+        }
     }
     // composite distributions and reproducibility
     for i in 0..(if thorough { 30_000 } else { 3_000 }) {
